@@ -259,7 +259,15 @@ def reuse(ctx, ex):
             n_first = change.pop('short first sequence', 5)
             s0, h0 = seq_for(first['step_ratio'], first['order'], first['step'], n_first)
             I.getattr(obj, 'rule')()
-            obj(s0, h0)
+            out0 = obj(s0, h0)
+            if n_first < 5:
+                # the short call itself (made after rule() was asked for the full length) gives what a fresh object gives
+                I0, models0, reg0 = make(ctx.repo)
+                fresh0 = I0.get_global('extrapolation', 'Richardson')(**first)(s0, h0)
+                g0, w0 = canon_out(out0, reg), canon_out(fresh0, reg0)
+                rep.check(g0 == w0, 'R-REUSE', 'extrapolation.Richardson', where,
+                          {'same_as_fresh_object': g0 == w0, 'after_rule()': repr(g0)[:200] if g0 != w0 else '', 'fresh': repr(w0)[:200] if g0 != w0 else ''},
+                          'identical abstract result', label + ' (the short call)', key='reuse')
             final = dict(first)
             for k, v in change.items():
                 I.setattr(obj, k, v)
